@@ -154,11 +154,11 @@ prop("C15", "other",
      ["render_bash/zsh/fish/simple, check_complete, static completer stubs"],
      note=KANI_NOTE, technique="Kani bounded model checking of the real Shell Display impl (bounded stand-in)")
 prop("C16", "other",
-     "bounded, leaves only: roff escaping (`escape`) of one fragment of two free ASCII bytes in Special/SpecialNoNewline mode (no output line starts with a control character, user backslashes are doubled) "
-     "and of control-line arguments (no raw space/newline/backslash); html style transitions for all 8x8 style pairs (complete: loop free, full domain). "
-     "Completeness of sections versus --help, render_html's angle-bracket escaping and markdown are not decided.",
-     ["extract_sections / section completeness", "render_html loop (`<`/`>` replacement)", "markdown rendering", "roff document assembly"],
-     note=KANI_NOTE, technique="Kani bounded model checking of escape() and change_style() (bounded stand-in; change_style complete)")
+     "narrow: html style transitions (change_style) close what is open in reverse nesting order and open the new set, for all 8x8 style pairs (complete: loop free, full domain), which is the mechanism behind "
+     "'all tags are balanced'. Roff escaping could not be brought within reach of either tool (CBMC exceeds 30 minutes on `escape` even for concrete 2-byte inputs; Verus cannot read its byte loops): "
+     "defect D6 there was found by reading and is fixed, but no obligation guards it. Section completeness, angle-bracket escaping and markdown are not decided.",
+     ["roff escape()/Roff rendering (K08 dropped after measurement)", "extract_sections / section completeness", "render_html loop (`<`/`>` replacement)", "markdown rendering"],
+     note=KANI_NOTE, technique="Kani model checking of change_style over its full finite domain (complete for that function)")
 prop("C18", "other",
      "bounded: ParseFlag::eval and ParseArgument::take_argument on 2 items with std::env::var_os replaced by a nondeterministic stub (so every environment state is covered): "
      "a name on the line wins and the variable is not consulted; the variable is used only when the name is absent from the line; both absent gives the absent value / Missing; "
